@@ -519,14 +519,25 @@ fn run_frames(scenarios: &[Value], out: &str) {
             };
             json!({"s": s, "ok": ok})
         }).collect();
-        let frames: Vec<Value> = sc.frames.iter().enumerate().map(|(k, f)| {
+        // reports listed in "both" are heard by both sources (same bytes to each, the source "both_first"
+        // first); "pause_before" lists report numbers before which the sender waits
+        let both: Vec<i64> = v["both"].as_array().map(|a| a.iter().filter_map(|x| x.as_i64()).collect()).unwrap_or_default();
+        let first = v["both_first"].as_i64().unwrap_or(0);
+        let mut frames: Vec<Value> = vec![];
+        for (k, f) in sc.frames.iter().enumerate() {
             let n = (k as u64 + 1) * 12_000; // 12 MHz counter, 1 ms steps
             let mut b = vec![0x1a, 0x33];
             b.extend_from_slice(&n.to_be_bytes()[2..8]);
             b.push(0x50);
             b.extend_from_slice(f);
-            json!({"hex": hex::encode(f), "beast": hex::encode(&b), "rx": sc.rx_of.get(&sc.reports[k].ac).unwrap_or(&0)})
-        }).collect();
+            let rep = k as i64 + 1;
+            let rxs: Vec<i64> = if both.contains(&rep) && sc.refs.len() == 2 { vec![first, 1 - first] }
+                                else { vec![*sc.rx_of.get(&sc.reports[k].ac).unwrap_or(&0) as i64] };
+            for (j, rx) in rxs.iter().enumerate() {
+                frames.push(json!({"hex": hex::encode(f), "beast": hex::encode(&b), "rx": rx,
+                                   "pause": j == 0 && sc.pause_before.contains(&rep)}));
+            }
+        }
         tr.emit(json!({"id": sc.id, "fam": sc.fam, "refs": refs, "frames": frames, "pause_before": sc.pause_before}));
     }
     tr.flush();
